@@ -367,7 +367,9 @@ def c17():
                      "C17_source_tie_ctor", "C17_source_tie_set_merge", "C17_source_tie_setters",
                      "C17_seq_frame", "C17_seq_last_threshold_wins",
                      "C17_seq_last_branching_factor_wins", "C17_seq_tolerance_survives",
-                     "C17_tolerance_only_call", "C17_call_idempotent", "C17_seq_nonvacuous"],
+                     "C17_tolerance_only_call", "C17_call_idempotent",
+                     "C17_name_only_equals_ctor_with_kept_tolerance", "C17_full_set_merge_equals_ctor",
+                     "C17_seq_nonvacuous"],
         "model_files": ["Model/ObsCfg.v", "Gen/GConfig.v", "Proofs/GenTieConfig.v"],
         "suites": [suite_config.suite_config, suite_config.suite_reset],
         "search": suite_config.search_c17,
